@@ -79,6 +79,16 @@ def one_case(ctx, base, i, e, mode, terms, keep):
         for (j, st, obs) in r["recover"]:
             if not ir.healed(obs[-1]) and not (obs[-1]["dst_row"] is not None and obs[-1]["dst_row"][0] == "Y" and obs[-1]["dst_row"][1] == "M" and obs[-1]["dst_disk"] == "good" and obs[-1]["req"] != "pending"):
                 ctx.fail("C09:not-recovered", f"{'uninterrupted' if j is None else f'killed at call {j}'}: three fault-free rounds later the transfer has not healed: {obs[-1]}", {**rp, "crash_at": j})
+    row = i["dst_row"]
+    if safe(i) and row is not None and row[1] == "N" and row[0] != "N" and i["req"] != "pending" and e["dst_usable"] and e["del_ok"]:
+        for (j, st, obs) in r["recover"]:
+            if obs[0]["dst_row"] != ("N", "N") or obs[0]["dst_disk"] is not None:
+                ctx.fail("C09:release-not-recovered", f"{'uninterrupted' if j is None else f'killed at call {j}'} while deleting a released copy: one fault-free round later the copy is {obs[0]['dst_row']} "
+                         f"with bytes {obs[0]['dst_disk']} (an uninterrupted run leaves it removed and gone)", {**rp, "crash_at": j})
+    if safe(i) and row is not None and row[0] == "M" and row[1] != "N" and e["dst_usable"]:
+        for (j, st, obs) in r["recover"]:
+            if obs[0]["dst_row"] is not None and obs[0]["dst_row"][0] == "M":
+                ctx.fail("C09:check-not-recovered", f"{'uninterrupted' if j is None else f'killed at call {j}'} while verifying a suspect copy: one round later it is still suspect", {**rp, "crash_at": j})
     terms.append(ir.trace_term(i, e, mode, r["trace"]))
     keep.append(("crash states", i, e, mode))
     for (j, st, obs) in r["recover"]:
